@@ -61,8 +61,15 @@ CDoc == O([a |-> O([x \in Confusable |-> CASE x = "cd" -> NumV(1) [] x = "c d" -
 Hist == {<<k1, k2>> : k1 \in Confusable, k2 \in Confusable}
 HSel(k) == <<Seg("", <<Key("a"), Key(k)>>)>>
 
-Init == /\ \/ \E v \in Vals : \E sel \in Sels : cs = [doc |-> Doc(v, IF IsArr(v) THEN P1 ELSE A(<<v>>)), sel |-> sel, before |-> <<>>]
-           \/ \E h \in Hist : cs = [doc |-> CDoc, sel |-> HSel(h[2]), before |-> HSel(h[1])]
+\* ... and the same selector text evaluated on two different documents one after the other
+RepSteps == {Idx(FALSE, <<Rng(1, -1)>>), Idx(FALSE, <<Rng(-1, 2)>>), Idx(FALSE, <<Rng(-1, -1), At(0)>>), Idx(FALSE, <<Each>>),
+             Idx(TRUE, <<Each, Rng(0, -1)>>), Idx(FALSE, <<At(1)>>), Key("p"), Pipe(<<PI("p", "string")>>)}
+RepDocs == {v \in Vals : IsArr(v)}
+
+Init == /\ \/ \E v \in Vals : \E sel \in Sels : cs = [doc |-> Doc(v, IF IsArr(v) THEN P1 ELSE A(<<v>>)), sel |-> sel, before |-> <<>>, docbefore |-> Null]
+           \/ \E h \in Hist : cs = [doc |-> CDoc, sel |-> HSel(h[2]), before |-> HSel(h[1]), docbefore |-> Null]
+           \/ \E v1 \in RepDocs : \E v2 \in RepDocs : \E st \in RepSteps :
+                 v1 # v2 /\ cs = [doc |-> Doc(v2, P1), sel |-> <<Seg("", <<Key("a"), st>>)>>, before |-> <<>>, docbefore |-> Doc(v1, P1)]
         /\ res = Null /\ pc = "start"
 \* the earlier selector (cs.before) is evaluated first by the harness; it does not enter the result
 Eval == pc = "start" /\ res' = EvalSel(cs.doc, cs.sel) /\ pc' = "done" /\ UNCHANGED cs
@@ -93,5 +100,7 @@ OutOfRange ==
         /\ Reader(v, <<Idx(FALSE, <<Rng(0, Len(v.e))>>)>>) = v
 
 Export == Done => PrintT(ToJson([doc |-> cs.doc, sel |-> cs.sel, res |-> res, before |-> cs.before,
-                                 resbefore |-> IF cs.before = <<>> THEN Null ELSE EvalSel(cs.doc, cs.before)]))
+                                 resbefore |-> IF cs.before = <<>> THEN Null ELSE EvalSel(cs.doc, cs.before),
+                                 docbefore |-> cs.docbefore,
+                                 resdocbefore |-> IF IsNull(cs.docbefore) THEN Null ELSE EvalSel(cs.docbefore, cs.sel)]))
 =============================================================================
